@@ -1415,7 +1415,11 @@ func (c *FnCtx) funcMods(fn *ssa.Function, m *modSet, depth int) {
 		mm.alloc = true
 		// `modifies` speaks about program state; the ghost bookkeeping the body advances (callback log, channel
 		// sequences, tracked calls, lock generations) changes whatever the clause says
-		if len(fn.Blocks) > 0 && depth <= 6 {
+		if spec.Options["opaque"] != "" {
+			// `option opaque`: the callee is a black box that does not call back into functions its callers track
+			// (assumed, listed); only what `modifies` names changes
+			c.assumed["opaque callee (does not call functions its callers track): "+c.eng.funcName(fn)] = true
+		} else if len(fn.Blocks) > 0 && depth <= 6 {
 			c.modCacheFor()[fn] = nil
 			body := newModSet()
 			for _, b := range fn.Blocks {
